@@ -961,7 +961,8 @@ def hashone_check(ctx):
     n = 200 if ctx.tier == "quick" else 5000
     for i in range(n):
         key = G.rand_key(rng)
-        kind = rng.choice(["u8", "u32", "u64", "u128", "str", "bytes", "tuple", "vec16", "unit", "i64"])
+        kind = rng.choice(["u8", "u16", "u32", "i32", "u64", "i64", "u128", "usize", "isize", "bool", "char", "str", "bytes", "tuple",
+                           "vec16", "slice32", "array8", "option", "unit"])
         val = rng.bytes(rng.below(40), rng.below(2))
         lines.append("hashone %s %s %s" % (G.keystr(key), kind, hexs(val)))
     text = "H 0\n" + "\n".join(lines) + "\n"
